@@ -241,4 +241,6 @@ def run(ctx):
         ctx.violation('C entry', 'c/csimulator.c', 'the fast-load trigger is no longer pc == 0x0556')
     from sa.rules.C13 import narrowing_rule
     narrowing_rule(ctx, repo)     # shared: the C fast-load path must not narrow 64-bit tape clocks
+    from sa.rules import memo
+    memo.run_for(ctx, repo, 'C12')
     return report.finish(ctx, EXPLANATION)
